@@ -33,14 +33,14 @@ CHECKS = {
         "engine": "simopt",
         "design_ref": "DESIGN.md section 4, C12",
         "technique": "deterministic simulation: split call histories under stdout/clock/solver-stall faults; single-step stepper twin + independently written stopping rule + fresh-clone replay as oracles",
-        "text": "Seeded search over histories of 1..6 optimize() calls with independently drawn verbose flag, stdout sink (memory, None, slow, failing at write k) and clock personality (steady, frozen, epoch 0, jumps forwards/backwards) per call. Every reported chi^2 is compared with a stepper twin advanced one update at a time in a benign environment, the stopping decision with an independent implementation of the documented rule, the poses after each call with the stepper's trajectory (splitting reproduces the trajectory), the printed table with the report, and the next call with the same call on a fresh clone built from visible state (no hidden state). Sampling, not proof.",
+        "text": "Seeded search over histories of 1..6 optimize() calls with independently drawn verbose flag, stdout sink (memory, None, slow, failing at write k), clock personality (steady, frozen, epoch 0, jumps forwards/backwards) per call, user edits / pickle / deepcopy between calls, positional / default / numpy-typed arguments, and simulated Ctrl-C inside user edge code. Every reported chi^2 is compared with a stepper twin advanced one update at a time in a benign environment, the stopping decision with an independent implementation of the documented rule, the poses after each call with the stepper's trajectory (splitting reproduces the trajectory), the printed table with the report, and the next call with the same call on a fresh clone built from visible state (no hidden state). Sampling, not proof.",
         "note": "Trusted: NumPy/SciPy, CPython io/logging. The stepper twin uses the real optimize(max_iter=1, tol=0) deliberately: hidden state or environment dependence makes the two disagree. Threshold ties of the stopping rule are accepted either way (guard bands).",
     },
     "C15": {
         "engine": "simopt",
         "design_ref": "DESIGN.md section 4, C15",
         "technique": "deterministic simulation: seeded interleavings of up to 50 queries between optimizer runs with failing exports/solves/prints; bitwise snapshot (frame-condition) model",
-        "text": "Seeded search over histories that interleave up to 50 query calls (errors, chi^2, analytic and numerical Jacobians, gradient/Hessian contributions, comparisons, vertex/edge/graph exports to the simulated disk, every pose operator and Jacobian method, alias/copy/returned-buffer probes) with 1..4 optimize() calls, on graphs mixing analytic edges, numerical-Jacobian twins and n-ary custom edges. A bitwise snapshot of all numeric state, fixed flags, ids and vertex bindings must be unchanged after every query, repeated queries must return identical values, and optimize may change only vertex poses (and the first vertex's flag when asked) -- also when the export, the solve or the print fails. Sampling, not proof.",
+        "text": "Seeded search over histories that interleave up to 50 query calls (errors, chi^2, analytic and numerical Jacobians, gradient/Hessian contributions, comparisons incl. a persistent near-equal twin graph, vertex/edge/graph/parameter exports to the simulated disk, pickle/deepcopy, every pose operator and Jacobian method, alias/copy/returned-buffer/held-result probes, earlier questions asked again later) with 1..4 optimize() calls, on graphs mixing analytic edges, numerical-Jacobian twins and n-ary custom edges. A bitwise snapshot of all numeric state, fixed flags, ids and vertex bindings must be unchanged after every query, repeated queries must return identical values, and optimize may change only vertex poses (and the first vertex's flag when asked) -- also when the export, the solve or the print fails. Sampling, not proof.",
         "note": "Trusted: NumPy/SciPy, CPython io. +pi/-pi are canonicalised (observation O2). Exceptions thrown by user edge code inside the perturb/restore window are not injected (outside the statement's quantifier).",
     },
     "C13": {
@@ -93,7 +93,7 @@ def main():
         ],
         "checks": [],
         "not_applicable": [],
-        "notes": "All checks are seeded (VERIF_SEED), run /repo's working tree in-process under gsim.World, and re-validate every violation by replaying the shrunk case in a fresh interpreter. Tiers are count-based with a wall-clock cap (skipped runs are counted in the evidence). Thorough tiers add complete fault-position sweeps. Exit 2 = harness error (never a pass). Five genuine defects of the pinned tree were repaired by fix: commits (known_findings.json, DESIGN.md section 6); there is no known (unrepaired) finding. Sensitivity: 80 seeded mutants and 49 independently written breaking changes (seeded/), DESIGN.md section 10.",
+        "notes": "All checks are seeded (VERIF_SEED), run /repo's working tree in-process under gsim.World, and re-validate every violation by replaying the shrunk case in a fresh interpreter. Tiers are count-based with a wall-clock cap (skipped runs are counted in the evidence). Thorough tiers add complete fault-position sweeps. Exit 2 = harness error (never a pass). Eleven genuine defects of the pinned tree (F1-F11) were repaired by fix: commits (known_findings.json, DESIGN.md section 6); there is no known (unrepaired) finding. Sensitivity: ~90 seeded mutants, 121 independently written breaking changes (seeded/) and 30+ behaviour-preserving refactors (benign/), DESIGN.md section 10.",
     }
     for p in sorted(CHECKS):
         c = CHECKS[p]
